@@ -42,6 +42,10 @@ FAMILIES = {
     "nested table in a multi-line cell": lambda n: "{|\n| <span>\n" * n + "\n|}</span> | x" * n,
     "nested table in a styled cell": lambda n: "{|\n| a=b | <span>\n" * n + "\n|}</span> | x" * n,
     "nested table after a template in a cell": lambda n: "{|\n| {{t|\n}} | {{u|\n" * n + "}}\n|} | x" * n,
+    # the same with a long last line (many text segments) between the multi-line node's newline and the '|'
+    "nested table in a template in a cell, long last line": lambda n: "{|\n| {{a|\n" * n + ("\n" + "see-also-" * 25 + "}} | y\n|}") * n,
+    "nested table in a multi-line cell, long last line": lambda n: "{|\n| <span>\n" * n + ("\n|}" + "-a:b;c" * 40 + "</span> | x") * n,
+    "cell with a multi-line comment and a long line": lambda n: "{|\n" + ("| <!--\n-->" + "x-y:z " * 30 + "| c\n") * n + "|}",
     "nested tables": lambda n: "{|\n|\n" * n + "|}\n" * n, "nested [x {{": lambda n: "[http://a {{b|" * n + "}}]" * n,
     "nested '' '''": lambda n: "''a'''b" * n + "'''''" * n,
     "nested {{a|'''''": lambda n: "{{a|'''''" * n + "'''''}}" * n, "nested {{ runs": lambda n: ("{{" * 40 + "a|") * n + "}}" * (40 * n),
@@ -221,6 +225,13 @@ def judge(rec):
             e = math.log2(w2 / w1)
             if e > 2.7:
                 probs.append("Python work grows by 2^%.2f from n=%d to n=%d (%d -> %d units)" % (e, n1, n2, w1, w2))
+    # between two neighbouring sizes work may not jump as only exponential growth does (the envelope above is in characters
+    # and is generous to families with much text per level): local exponent log(w2/w1)/log(n2/n1) below 6
+    for (n1, _l1, w1, _d1), (n2, _l2, w2, _d2) in zip(py, py[1:]):
+        if w1 >= 5000 and n2 > n1 and math.log(w2 / w1) / math.log(n2 / n1) > 6:
+            probs.append("Python work jumps from %d to %d units between n=%d and n=%d (local exponent %.1f): exponential growth"
+                         % (w1, w2, n1, n2, math.log(w2 / w1) / math.log(n2 / n1)))
+            break
     deep = [d for (n, _l, _w, d) in py]
     if deep and max(deep) > FRAME_LIMIT:
         probs.append("Python frame depth %d exceeds the fixed limit %d: %r" % (max(deep), FRAME_LIMIT, [(n, d) for (n, _l, _w, d) in py]))
@@ -228,6 +239,11 @@ def judge(rec):
     for (n, chars, t) in c:
         if t > 4e-7 * chars * chars + 2e-5 * chars + 0.25:
             probs.append("C tokenizer: %.2f s CPU at %d characters exceeds the quadratic envelope" % (t, chars))
+            break
+    for (n1, _l1, t1), (n2, _l2, t2) in zip(c, c[1:]):
+        if t1 >= 0.02 and n2 > n1 and math.log(t2 / t1) / math.log(n2 / n1) > 6:
+            probs.append("C time jumps from %.3fs to %.3fs between n=%d and n=%d (local exponent %.1f): exponential growth"
+                         % (t1, t2, n1, n2, math.log(t2 / t1) / math.log(n2 / n1)))
             break
     for (n1, _l1, t1), (n2, _l2, t2) in list(zip(c, c[1:]))[-1:]:
         if t1 > 0.03 and n2 == 2 * n1:
